@@ -89,4 +89,36 @@ def Server.validCommands (s : Server) (sess : Sess) : List Nat :=
       !p.2.raw && !p.2.perms.isEmpty && levelOK (s.policyFor p.1) sess.authenticated sess.encrypted &&
       p.2.perms.any (fun perm => a perm sess.user))).map (·.1)
 
+/-! ### the third handler outcome: `KeepOpen()`
+
+`ServeConn` distinguishes three returns of a handler (server.go: `errKeepOpen`, `c.keepAlive`):
+the model above folds `KeepOpen()` away (its `keep` is two-valued and every run ends `.closed`).
+`serveAuthH` / `serveRawH` are the loop with all three; `serveAuth` is their restriction to handlers
+that never take ownership of the connection (`C05.serveAuthH_eq`). -/
+
+inductive HRes
+  | done        -- nil without KeepAlive, or any error other than errKeepOpen: the server closes
+  | keepAlive   -- nil after c.KeepAlive(): the server reads the next command integer
+  | keepOpen    -- KeepOpen(): the handler took ownership; ServeConn returns WITHOUT closing
+  deriving Repr, DecidableEq, Inhabited
+
+def Server.serveAuthH (s : Server) (sess : Sess) (res : Nat → HRes) : Nat → List Nat → List Ev
+  | cmd, rest =>
+    match s.lookup cmd with
+    | none => [.closed]
+    | some h =>
+      if h.raw then [.closed]
+      else if !s.satisfies cmd sess then [.closed]
+      else match res cmd with
+        | .keepOpen => [.ran cmd]
+        | .done => [.ran cmd, .closed]
+        | .keepAlive => match rest with
+          | [] => [.ran cmd, .closed]
+          | next :: rest' => .ran cmd :: s.serveAuthH sess res next rest'
+
+def Server.serveRawH (s : Server) (res : Nat → HRes) (cmd : Nat) : List Ev :=
+  match s.lookup cmd with
+  | some h => if h.raw then (if res cmd = .keepOpen then [.ran cmd] else [.ran cmd, .closed]) else [.closed]
+  | none => [.closed]
+
 end Cedar.Disp
